@@ -134,9 +134,11 @@ func (r *rule) compile() error {
 		} else if ch == '?' {
 			// "?" is any char except "/"
 			regStr += "[^" + escSL + "]"
-		} else if ch == '.' || ch == '$' {
-			// Escape some regexp special chars that have no meaning
-			// in golang's filepath.Match
+		} else if ch == '.' || ch == '$' || ch == '+' || ch == '(' || ch == ')' || ch == '|' || ch == '{' || ch == '}' {
+			// Escape the regexp special chars that have no meaning
+			// in golang's filepath.Match, so that they only ever match
+			// themselves. ("[", "]" and "^" are left alone: they spell
+			// character classes in both syntaxes.)
 			regStr += `\` + string(ch)
 		} else if ch == '\\' {
 			// escape next char. Note that a trailing \ in the pattern
